@@ -191,6 +191,7 @@ type c17Scn struct {
 	vrfs  []*c17Vrf
 	nvrf  int
 	taken map[string]uint64
+	rtcHist []string
 	hnd   []*RouteTargetMembershipHandler
 	memOn []map[[3]uint64]bool // oracle bookkeeping per handler
 }
@@ -420,6 +421,7 @@ func (sc *c17Scn) addVrf() {
 	v.v, _ = sc.tm.GetVrf(v.name)
 	v.v.MplsLabel = v.label
 	sc.vrfs = append(sc.vrfs, v)
+	sc.rtcHist = append(sc.rtcHist, fmt.Sprintf("AddVrf imports=%s", c17Show(v.imp)))
 	o.stat("vrf_add", 1)
 	// the locally originated memberships
 	keys := make([]string, 0, len(msgs))
@@ -432,6 +434,140 @@ func (sc *c17Scn) addVrf() {
 		keys = []string{"-"}
 	}
 	o.ask(strings.Join(keys, " "), "addvrf %d", id)
+	for _, e := range v.imp {
+		sc.askRdest(c17Num(e))
+	}
+	sc.checkLocalMemberships(fmt.Sprintf("AddVrf imports=%s", c17Show(v.imp)))
+}
+
+// ---- the RT-membership destinations: local memberships next to received ones -----------------
+
+// rtcDest: the known path list of the destination (origin AS as, RT key), sources as model ids
+// (0 = this speaker, i+1 = c17Srcs[i]).
+func (sc *c17Scn) rtcDest(as uint32, key uint64) []int {
+	var out []int
+	t, _ := sc.tm.GetTable(bgp.RF_RTC_UC)
+	for _, d := range t.GetDestinations() {
+		n := d.GetNlri().(*bgp.RouteTargetMembershipNLRI)
+		k, _ := n.RouteTargetKey()
+		if n.AS != as || k != key || n.RouteTarget == nil {
+			continue
+		}
+		for _, p := range d.GetAllKnownPathList() {
+			if p.IsLocal() {
+				out = append(out, 0)
+				continue
+			}
+			for i, s := range c17Srcs {
+				if s.Address == p.GetSource().Address {
+					out = append(out, i+1)
+				}
+			}
+		}
+	}
+	return out
+}
+
+func (sc *c17Scn) askRdest(key uint64) {
+	d := sc.rtcDest(65000, key)
+	sc.o.ask(c17Ints(d), "rdest %d", key)
+	switch {
+	case len(d) < 2:
+	case d[0] == 0:
+		sc.o.stat("rtc_dest_local_best_of_several", 1)
+	case d[len(d)-1] == 0:
+		sc.o.stat("rtc_dest_local_last_of_several", 1)
+	default:
+		for _, x := range d {
+			if x == 0 {
+				sc.o.stat("rtc_dest_local_in_the_middle", 1)
+			}
+		}
+	}
+}
+
+// oracle: the locally originated memberships are exactly the union of the import targets of the
+// configured VRFs, whatever else the membership destinations hold
+func (sc *c17Scn) checkLocalMemberships(after string) {
+	want := map[uint64]bool{}
+	for _, w := range sc.vrfs {
+		for _, e := range w.imp {
+			want[c17Num(e)] = true
+		}
+	}
+	have := map[uint64]bool{}
+	for _, p := range sc.tm.GetPathList(GLOBAL_RIB_NAME, 0, []bgp.Family{bgp.RF_RTC_UC}) {
+		if !p.IsLocal() {
+			continue
+		}
+		n := p.GetNlri().(*bgp.RouteTargetMembershipNLRI)
+		k, _ := n.RouteTargetKey()
+		if n.AS != 65000 {
+			sc.o.fail("vrf-local-membership", map[string]any{"after": after, "local membership with origin AS": n.AS})
+		}
+		have[k] = true
+	}
+	if fmt.Sprint(want) != fmt.Sprint(have) {
+		cls := "vrf-local-membership"
+		if strings.HasPrefix(after, "DeleteVrf") && len(have) > len(want) {
+			cls = "vrf-delete-local-membership-not-withdrawn"
+		}
+		sc.o.fail(cls, map[string]any{"after": after, "locally-originated": fmt.Sprint(have), "import-targets-of-the-vrfs": fmt.Sprint(want), "history": append([]string{}, sc.rtcHist...)})
+	}
+}
+
+// rtmRecv: an iBGP neighbour announces / withdraws a membership. Mostly for the identical NLRI
+// (origin AS = ours) of a route target some VRF imports or may import, with a LOCAL_PREF below,
+// equal to or above the 100 of the local membership; sometimes with another origin AS (another
+// destination with the same RT key, which never holds a local path).
+func (sc *c17Scn) rtmRecv() {
+	r, o := sc.r, sc.o
+	if sc.taken == nil {
+		sc.taken = map[string]uint64{}
+	}
+	e := c17Pool[r.intn(3)]
+	if r.chance(15) {
+		e = c17Pool[r.intn(len(c17Pool))]
+	}
+	capable, _, key := c17Octets(e)
+	if !capable {
+		return
+	}
+	if n, ok := sc.taken[e.String()]; ok && n != key {
+		return
+	}
+	sc.taken[e.String()] = key
+	src := r.intn(len(c17Srcs))
+	as := uint32(65000)
+	if r.chance(15) {
+		as = 65001
+	}
+	lp := uint32(r.pick(40+src, 160+src, 160+src, 100+src))
+	wd := r.chance(30)
+	n := bgp.NewRouteTargetMembershipNLRI(as, e)
+	var attrs []bgp.PathAttributeInterface
+	if !wd {
+		mp, _ := bgp.NewPathAttributeMpReachNLRI(bgp.RF_RTC_UC, []bgp.PathNLRI{{NLRI: n}}, c17Srcs[src].Address)
+		attrs = []bgp.PathAttributeInterface{bgp.NewPathAttributeOrigin(0), bgp.NewPathAttributeAsPath(nil), bgp.NewPathAttributeLocalPref(lp), mp}
+	}
+	sc.tm.Update(NewPath(bgp.RF_RTC_UC, c17Srcs[src], bgp.PathNLRI{NLRI: n}, wd, attrs, time.Unix(1700000000, 0), false))
+	sc.rtcHist = append(sc.rtcHist, fmt.Sprintf("recv membership as=%d rt=%d from src%d lp=%d wd=%v", as, key, src+1, lp, wd))
+	if wd {
+		o.stat("rtm_recv_withdraw", 1)
+	} else if lp > 100 {
+		o.stat("rtm_recv_preferred_over_local", 1)
+	} else if lp == 100 {
+		o.stat("rtm_recv_same_pref_as_local", 1)
+	} else {
+		o.stat("rtm_recv_less_preferred", 1)
+	}
+	if as == 65000 {
+		o.op("mrecv %d %d %d %d", key, src+1, lp, c17b2i(wd))
+		sc.askRdest(key)
+	} else {
+		o.stat("rtm_recv_other_origin_as", 1)
+	}
+	sc.checkLocalMemberships("received membership")
 }
 
 func (sc *c17Scn) delVrf() {
@@ -441,11 +577,15 @@ func (sc *c17Scn) delVrf() {
 	}
 	i := sc.r.intn(len(sc.vrfs))
 	v := sc.vrfs[i]
+	for _, e := range v.imp {
+		sc.rtcHist = append(sc.rtcHist, fmt.Sprintf("before DeleteVrf: destination of %d = %v", c17Num(e), sc.rtcDest(65000, c17Num(e))))
+	}
 	msgs, err := sc.tm.DeleteVrf(v.name)
 	if err != nil {
 		o.fail("vrf-delete", err.Error())
 		return
 	}
+	sc.rtcHist = append(sc.rtcHist, fmt.Sprintf("DeleteVrf imports=%s", c17Show(v.imp)))
 	sc.vrfs = append(sc.vrfs[:i], sc.vrfs[i+1:]...)
 	var ks []uint64
 	for _, m := range msgs {
@@ -479,28 +619,17 @@ func (sc *c17Scn) delVrf() {
 		}
 	}
 	if len(want) != len(ks) {
-		o.fail("vrf-delete-rtm", map[string]any{"withdrawn": fmt.Sprint(ks), "expected": fmt.Sprint(want)})
+		o.fail("vrf-delete-local-membership-not-withdrawn", map[string]any{"withdrawn": fmt.Sprint(ks), "expected": fmt.Sprint(want)})
 	}
 	for _, k := range ks {
 		if !want[k] {
-			o.fail("vrf-delete-rtm", map[string]any{"withdrawn": fmt.Sprint(ks), "expected": fmt.Sprint(want)})
+			o.fail("vrf-delete-local-membership-not-withdrawn", map[string]any{"withdrawn": fmt.Sprint(ks), "expected": fmt.Sprint(want)})
 		}
 	}
-	// the local RTC table must now hold exactly the import targets of the remaining VRFs
-	left := map[uint64]bool{}
-	for _, w := range sc.vrfs {
-		for _, e := range w.imp {
-			left[c17Num(e)] = true
-		}
+	for _, e := range v.imp {
+		sc.askRdest(c17Num(e))
 	}
-	have := map[uint64]bool{}
-	for _, p := range sc.tm.GetPathList(GLOBAL_RIB_NAME, 0, []bgp.Family{bgp.RF_RTC_UC}) {
-		k, _ := p.GetNlri().(*bgp.RouteTargetMembershipNLRI).RouteTargetKey()
-		have[k] = true
-	}
-	if fmt.Sprint(left) != fmt.Sprint(have) {
-		o.fail("vrf-delete-rtm", map[string]any{"rtc-table": fmt.Sprint(have), "expected": fmt.Sprint(left)})
-	}
+	sc.checkLocalMemberships(fmt.Sprintf("DeleteVrf imports=%s", c17Show(v.imp)))
 }
 
 // vrfChecks: import test, Select(VRF), ToLocal, ToGlobal for every VRF over the current table
@@ -819,11 +948,54 @@ func c17Corpus(o *vOut) {
 	sc.uid = 9100
 }
 
+// c17CorpusMgr: the local membership of a deleted VRF must be withdrawn wherever it stands in its
+// destination (seeded change C17-H: the scan stopped at the first path).
+func c17CorpusMgr(o *vOut) {
+	for _, lp := range []uint32{160, 100, 40} {
+		sc := c17NewScn(o, &vRand{s: 1})
+		sc.taken = map[string]uint64{}
+		X := c17Pool[0]
+		mk := func(id int, imp ...bgp.ExtendedCommunityInterface) *c17Vrf {
+			v := &c17Vrf{id: id, name: fmt.Sprintf("vrf%d", id), rd: 0, label: uint32(2000 + id), imp: imp}
+			msgs, err := sc.tm.AddVrf(v.name, uint32(id), c17RD(0), v.imp, nil, &PeerInfo{AS: 65000, LocalID: netip.MustParseAddr("10.255.0.1")})
+			if err != nil {
+				o.fail("vrf-add", err.Error())
+				return v
+			}
+			o.ask("ok", "vrf %d 0 %d %s 0", id, v.label, c17ECs(v.imp))
+			v.v, _ = sc.tm.GetVrf(v.name)
+			sc.vrfs = append(sc.vrfs, v)
+			sc.nvrf = id
+			keys := []string{}
+			for _, m := range msgs {
+				k, _ := m.GetNlri().(*bgp.RouteTargetMembershipNLRI).RouteTargetKey()
+				keys = append(keys, fmt.Sprint(k))
+				sc.tm.Update(m)
+			}
+			o.ask(strings.Join(keys, " "), "addvrf %d", id)
+			return v
+		}
+		mk(1, X)
+		// neighbour src1 announces the identical membership
+		n := bgp.NewRouteTargetMembershipNLRI(65000, X)
+		mp, _ := bgp.NewPathAttributeMpReachNLRI(bgp.RF_RTC_UC, []bgp.PathNLRI{{NLRI: n}}, c17Srcs[0].Address)
+		sc.tm.Update(NewPath(bgp.RF_RTC_UC, c17Srcs[0], bgp.PathNLRI{NLRI: n}, false,
+			[]bgp.PathAttributeInterface{bgp.NewPathAttributeOrigin(0), bgp.NewPathAttributeAsPath(nil), bgp.NewPathAttributeLocalPref(lp), mp}, time.Unix(1700000000, 0), false))
+		o.op("mrecv %d 1 %d 0", c17Num(X), lp)
+		sc.rtcHist = append(sc.rtcHist, fmt.Sprintf("recv membership as=65000 rt=%d from src1 lp=%d", c17Num(X), lp))
+		sc.askRdest(c17Num(X))
+		sc.r = &vRand{s: 1}
+		sc.delVrf() // the only VRF
+		o.stat("corpus_mgr", 1)
+	}
+}
+
 func TestVerifC17(t *testing.T) {
 	o := vOpen(t)
 	defer o.close()
 	r := &vRand{s: o.seed*7919 + 17}
 	c17Corpus(o)
+	c17CorpusMgr(o)
 	scenarios, steps := 60, 70
 	if o.thorough {
 		scenarios, steps = 400, 90
@@ -835,13 +1007,15 @@ func TestVerifC17(t *testing.T) {
 			switch x := r.intn(100); {
 			case x < 50:
 				sc.routeOp()
-			case x < 58:
+			case x < 57:
 				if len(sc.vrfs) < 4 {
 					sc.addVrf()
 				}
 			case x < 62:
 				sc.delVrf()
-			case x < 70:
+			case x < 68:
+				sc.rtmRecv()
+			case x < 73:
 				sc.vrfChecks()
 			case x < 78:
 				sc.convChecks()
